@@ -201,6 +201,8 @@ def run(chk):
     from . import c01, c03
     c03.rule_r7(chk, rid="C08-R4")
     c01.rule_r6(chk, rid="C08-R5")
+    from .. import variants
+    variants.apply(chk, "C08-R6", [("irispie.fords.kalmans", "kalman_filter")])
     chk.assumptions = [
         "that smoothed means reproduce data and equations is numerical: NOT decided",
         "Solution.Ua/Ta/Pa/Ka/Za form one consistent triangular representation (C01)",
